@@ -417,12 +417,12 @@ def run(ctx):
         for i, (name, path, data) in enumerate(configs):
             if not ctx.mine(i):
                 continue
-            differential(ctx, name, path, data, [ctx.seed * 10 + s for s in range(ctx.pick(2, 8))], ctx.pick(150, 400))
+            differential(ctx, name, path, data, [ctx.seed * 10 + s for s in range(ctx.pick(2, 24))], ctx.pick(150, 400))
             if not ctx.out_of_time(0.8):
                 corruption_checks(ctx, name, data)
             else:
                 ctx.add('corruption_sets_skipped_for_time')
-        component_factories(ctx, ctx.pick(12, 150))
+        component_factories(ctx, ctx.pick(12, 800))
 
 
 def replay(ctx, kind, payload):
